@@ -408,6 +408,17 @@ def plan_growth(pid, tier, seed):
                          "between fixed types, integers and the four float types judged as the to_num family; StaticCast: Some carries the "
                          "converted value and is given only for layout pairs where no source value can overflow",
                     assumptions=["not one of the 18 listed properties", "the half crate's from_bits / to_bits are trusted"])
+    if pid == "G05":
+        gens = [dict(name="foldpred", profile=pr, bin="harness_opt/opt", dom="big", per_shard=1500,
+                     args=["--topic", "fold,pred", "--tier", tier, "--seed", str(seed)]) for pr in ("unchecked", "checked")]
+        gens[1]["name"] = "foldpred_checked"
+        return dict(bins=["opt"], crate="harness_opt", profiles=["unchecked", "checked"], gens=gens, designs=[], growth=True,
+                    nontrivial=lambda line: '"xs":[]' not in line and '"a":[0],' not in line,
+                    rule="growth: Sum / Product of the plain fixed types (by value and by reference) equal the exact left fold of + / * "
+                         "whenever every intermediate result fits (empty product = 1 where representable), under both build profiles; "
+                         "is_negative / is_positive, min_value / max_value / default, and the round trips from_bits(to_bits), "
+                         "from_{le,be,ne}_bytes(to_..._bytes), on 36 layouts of every width",
+                    assumptions=["not one of the 18 listed properties"])
     if pid == "G04":
         gens = [dict(name="alias", profile="unchecked", bin="harness_opt/opt", dom="big", per_shard=100, args=["--topic", "alias"])]
         return dict(bins=["opt"], crate="harness_opt", profiles=["unchecked"], gens=gens, designs=[], growth=True,
@@ -428,6 +439,7 @@ PLANS = {
     "G02": lambda t, s: plan_growth("G02", t, s),
     "G03": lambda t, s: plan_growth("G03", t, s),
     "G04": lambda t, s: plan_growth("G04", t, s),
+    "G05": lambda t, s: plan_growth("G05", t, s),
     "C12": lambda t, s: plan_math("C12", t, s),
     "C13": lambda t, s: plan_math("C13", t, s),
     "C14": lambda t, s: plan_math("C14", t, s),
